@@ -18,6 +18,11 @@
 (* on i and then on j (two 1x1 inverses) -- mean and covariance; the marginal   *)
 (* of a marginal is the marginal; Dirichlet means sum to 1, covariance rows     *)
 (* sum to 0, the density of Dirichlet(1,..,1) is (n-1)!.                        *)
+(* Kinds added later: normal-chol / normal-prec (the same table on objects     *)
+(* built by NewNormalChol / NewNormalPrecision), wishart, eigen (dist-mv), and *)
+(* rand, distance, which print cases in the expression-tree format of RatLib   *)
+(* for the area dist-rat (seeded draws against marginal laws; the statistical  *)
+(* distances of distmv); each section states what it derives.                  *)
 (* R2 (EmitCase): the table of each case for the harness area dist-mv:          *)
 (*   [op, i (index list), x, y (rational vectors), v (rational vector result),  *)
 (*    m (rational matrix result), r (rational scalar), tol]                     *)
@@ -88,6 +93,8 @@ L3s == {<< <<a, 0, 0>>, <<b, c, 0>>, <<d, e, f>> >> : a \in {1, 2}, b \in Offs, 
 LIndex(L) == ISum([i \in DOMAIN L |-> ISum([j \in DOMAIN L |-> (i * 5 + j * 3) * (L[i][j] + 2)])])
 Keep3(L) == Tier = 1 \/ (LIndex(L) + Salt) % 4 = 0
 Ls == L2s \cup {L \in L3s : Keep3(L)}
+IntMat(M) == [i \in DOMAIN M |-> [j \in DOMAIN M |-> M[i][j][1]]]
+SeqOfQ == << I(0 - 2), I(0 - 1), R(0 - 1, 2), Zero, Half, One, I(2) >>
 RatM(L) == [i \in DOMAIN L |-> [j \in DOMAIN L |-> I(L[i][j])]]
 SigmaOf(L) == MatMul(RatM(L), Transpose(RatM(L)))
 MuOf(L) == [i \in DOMAIN L |-> ((LIndex(L) + Salt + 3 * i) % 7) - 3]
@@ -108,6 +115,48 @@ Ck(op, idx, x, y, v, m, r, tol) == [op |-> op, i |-> idx, x |-> [k \in DOMAIN x 
                                     v |-> [k \in DOMAIN v |-> V(v[k])], m |-> [a \in DOMAIN m |-> [b \in DOMAIN m[a] |-> V(m[a][b])]],
                                     r |-> V(r), tol |-> tol]
 Idx0(idx) == [k \in DOMAIN idx |-> idx[k] - 1]                    \* code indices
+
+\* Dim; entropy n/2 (1 + log 2 pi) + log det L: Entropy + LogProb(mu) = n/2 and exp(Entropy - Entropy of the standard normal
+\* law of the same dimension) = det L; Prob - exp(LogProb) = 0 (relative to Prob; both may underflow to 0); TransformNormal(z) = mu + L z (exact on integer z; into nil, into
+\* a destination and in place); Quantile(1/2, .., 1/2) = mu, Quantile(p) = TransformNormal of the standard normal quantiles of p,
+\* documented panic for p outside [0, 1]; SetMean(m) moves the law: LogProb(x) - LogProb(m) = -q(x - m)/2 afterwards
+DetL(L) == RProd([i \in DOMAIN L |-> I(L[i][i])])
+LVec(L, z) == [i \in DOMAIN L |-> RSum([j \in DOMAIN L |-> RMul(I(L[i][j]), z[j])])]
+NormalMore(L) ==
+    LET LR == RatM(L)
+        mu == RVec(MuOf(L))
+        n == Len(L)
+        halves == [i \in 1 .. n |-> Half]
+    IN << Ck("Dim", <<>>, NoV, NoV, NoV, NoM, I(n), "exact"),
+          Ck("EntropyPlusLogProbMean", <<>>, NoV, NoV, NoV, NoM, R(n, 2), "special"),
+          Ck("ExpEntropyVsUnit", <<>>, NoV, NoV, NoV, NoM, DetL(L), "special"),
+          Ck("Quantile", <<>>, halves, NoV, mu, NoM, Zero, "ops"),
+          Ck("QuantilePanics", <<>>, [i \in 1 .. n |-> IF i = n THEN R(9, 8) ELSE Half], NoV, NoV, NoM, Zero, "exact"),
+          Ck("QuantilePanics", <<>>, [i \in 1 .. n |-> IF i = 1 THEN R(0 - 1, 8) ELSE Half], NoV, NoV, NoM, Zero, "exact") >>
+       \o Checks({[i \in 1 .. n |-> R(1 + ((3 * i + k) % 7), 8)] : k \in 0 .. 2}, LAMBDA q :
+            << Ck("QuantileIsTransform", <<>>, q, NoV, NoV, NoM, Zero, "special") >>)
+       \o Checks(Pts(n), LAMBDA z :
+            << Ck("TransformNormal", <<>>, RVec(z), NoV, VAdd(mu, LVec(L, RVec(z))), NoM, Zero, "ops"),
+               Ck("ProbMinusExpLogProb", <<>>, RVec(z), NoV, NoV, NoM, Zero, "special") >>)
+       \* samplemv.ProposalNormal with this covariance: log p(x | y) - log p(y | y) = -q(x - y)/2, and p(x | y) = p(y | x)
+       \o Checks({<<y, x>> \in Pts(n) \X Pts(n) : y # x}, LAMBDA yx :
+            << Ck("ProposalLogProbDiff", <<>>, RVec(yx[2]), RVec(yx[1]), NoV, NoM,
+                  RNeg(RMul(Half, Quad(LR, VSub(RVec(yx[2]), RVec(yx[1]))))), "special") >>)
+       \o Checks({<<m, x>> \in Pts(n) \X Pts(n) : m # x}, LAMBDA mx :
+            << Ck("SetMeanLogProbDiff", <<>>, RVec(mx[1]), RVec(mx[2]), RVec(mx[1]), NoM,
+                  RNeg(RMul(Half, Quad(LR, VSub(RVec(mx[2]), RVec(mx[1]))))), "special") >>)
+\* the three constructions of one law: NewNormal(mu, Sigma), NewNormalChol(mu, chol(Sigma)), NewNormalPrecision(mu, Sigma^-1);
+\* the precision matrix is an integer matrix when L has a unit diagonal
+UnitDiag(L) == \A i \in DOMAIN L : L[i][i] = 1
+UnitVecR(n, j) == [i \in 1 .. n |-> IF i = j THEN One ELSE Zero]
+PrecOf(L) == LET n == Len(L)
+                 cols == [j \in 1 .. n |-> SigmaInvVec(RatM(L), UnitVecR(n, j))]
+             IN [i \in 1 .. n |-> [j \in 1 .. n |-> cols[j][i]]]
+PrecThm(L) == LET P == PrecOf(L) IN
+              /\ \A i, j \in DOMAIN L : P[i][j][2] = 1                         \* integer entries
+              /\ IsSym(P)
+              /\ MatMul(P, SigmaOf(L)) = [i \in DOMAIN L |-> UnitVecR(Len(L), i)]
+Retol(cs) == [i \in DOMAIN cs |-> IF cs[i].tol = "ops" THEN [cs[i] EXCEPT !.tol = "special"] ELSE cs[i]]
 
 NormalThm(L) ==
     LET S == SigmaOf(L)
@@ -143,7 +192,11 @@ NormalChecks(L) ==
                Ck("LogProbDiff", <<>>, RVec(x), mu, NoV, NoM, RNeg(RMul(Half, Quad(LR, d))), "special") >>)
        \o Checks({<<x, y>> \in Pts(n) \X Pts(n) : x # y}, LAMBDA xy :
             << Ck("LogProbDiff", <<>>, RVec(xy[1]), RVec(xy[2]), NoV, NoM,
+                  RMul(Half, RSub(Quad(LR, VSub(RVec(xy[2]), mu)), Quad(LR, VSub(RVec(xy[1]), mu)))), "special"),
+               \* the package-level NormalLogProb(x, mu, chol) is the same function
+               Ck("NormalLogProbDiff", <<>>, RVec(xy[1]), RVec(xy[2]), NoV, NoM,
                   RMul(Half, RSub(Quad(LR, VSub(RVec(xy[2]), mu)), Quad(LR, VSub(RVec(xy[1]), mu)))), "special") >>)
+       \o NormalMore(L)
 
 \* Student's t: nu integer > 2
 NuOf(L) == 3 + ((LIndex(L) + Salt) % 4)
@@ -154,7 +207,7 @@ TChecks(L) ==
         n == Len(L)
         nu == NuOf(L)
     IN << Ck("Mean", <<>>, NoV, NoV, mu, NoM, Zero, "exact"), Ck("Cov", <<>>, NoV, NoV, NoV, MatScale(R(nu, nu - 2), S), Zero, "ops"),
-          Ck("Nu", <<>>, NoV, NoV, NoV, NoM, I(nu), "exact") >>
+          Ck("Nu", <<>>, NoV, NoV, NoV, NoM, I(nu), "exact"), Ck("Dim", <<>>, NoV, NoV, NoV, NoM, I(n), "exact") >>
        \o Checks(VarSets(n), LAMBDA vs : << Ck("Marginal", Idx0(vs), NoV, NoV, Pick(mu, vs), MatScale(R(nu, nu - 2), Block(S, vs, vs)), I(nu), "ops") >>)
        \o Flatten([i \in 1 .. n |-> << Ck("MarginalSingle", <<i - 1>>, NoV, NoV, <<mu[i]>>, NoM, S[i][i], "ops") >>])
        \* conditional: nu' = nu + |obs|, Sigma' = (nu + d^2)/(nu + |obs|) * Schur complement; covariance nu'/(nu'-2) Sigma'
@@ -224,15 +277,323 @@ DirichletChecks(al) ==
     \o << Ck("NewPanics", <<>>, [i \in 1 .. n |-> IF i = n THEN Zero ELSE I(al[i])], NoV, NoV, NoM, Zero, "exact"),
           Ck("NewPanics", <<>>, [i \in 1 .. n |-> IF i = 1 THEN R(0 - 1, 2) ELSE I(al[i])], NoV, NoV, NoM, Zero, "exact") >>
 
+(***************************** Wishart (distmat) ******************************)
+\* Wishart(V, nu), V = L L^T (d = 2), log p(X) = (nu-d-1)/2 log|X| - tr(V^-1 X)/2 - const: a difference of log densities is
+\* rational when nu = d + 1 or |X| = |Y|.  d = 1, nu = 2k: the Gamma(k, rate 1/(2v)) density, p(x)/exp(-x/(2v)) rational.
+ColOf(M, j) == [i \in DOMAIN M |-> M[i][j]]
+TrInv(L, Xm) == RSum([j \in DOMAIN Xm |-> SigmaInvVec(RatM(L), ColOf(Xm, j))[j]])      \* tr((L L^T)^-1 Xm)
+WMs == {<< <<a, 0>>, <<b, c>> >> : a \in {1, 2}, b \in {0 - 1, 0, 1}, c \in {1, 2}}
+FlatM(M) == Flatten([i \in DOMAIN M |-> M[i]])
+WishartPars == {<<L, nu>> : L \in {<< <<1, 0>>, <<0, 1>> >>, << <<2, 0>>, <<1, 1>> >>, << <<1, 0>>, <<0 - 1, 3>> >>}, nu \in {3, 5, 2}}
+               \cup {<< << <<v>> >>, nu >> : v \in {1, 2, 3}, nu \in {2, 4, 6}}
+WishartChecks(wp) ==
+    LET L == wp[1]
+        nu == wp[2]
+        d == Len(L)
+        Xs == {SigmaOf(M) : M \in WMs}
+        Det(M) == RSub(RMul(M[1][1], M[2][2]), RMul(M[1][2], M[2][1]))
+    IN IF d = 2
+       THEN Checks({<<Xm, Y>> \in Xs \X Xs : Xm # Y /\ (nu = 3 \/ Det(Xm) = Det(Y))}, LAMBDA xy :
+              << Ck("WishartLogProbDiff", <<>>, FlatM(xy[1]), FlatM(xy[2]), NoV, NoM,
+                    RMul(Half, RSub(TrInv(L, xy[2]), TrInv(L, xy[1]))), "special") >>)
+            \o Checks(Xs, LAMBDA Xm : << Ck("WishartProbMinusExp", <<>>, FlatM(Xm), NoV, NoV, NoM, Zero, "special") >>)
+            \* not positive definite: probability 0, log probability -Inf (documented)
+            \o << Ck("WishartNotPD", <<>>, << I(1), I(2), I(2), I(1) >>, NoV, NoV, NoM, Zero, "exact"),
+                  Ck("WishartNotPD", <<>>, << I(1), I(1), I(1), I(1) >>, NoV, NoV, NoM, Zero, "exact"),
+                  Ck("WishartNotPD", <<>>, << I(0 - 1), I(0), I(0), I(2) >>, NoV, NoV, NoM, Zero, "exact"),
+                  Ck("WishartMean", <<>>, NoV, NoV, NoV, MatScale(I(nu), SigmaOf(L)), Zero, "ops") >>
+       ELSE LET v == L[1][1] * L[1][1]
+                k == nu \div 2
+            IN Checks({One, I(2), Half, I(5), R(3, 2)}, LAMBDA x :
+                 << Ck("WishartProb1", <<>>, <<x>>, << RNeg(RDiv(x, I(2 * v))) >>, NoV, NoM,
+                       RDiv(RPow(x, k - 1), RMul(RPow(I(2 * v), k), I(Fact(k - 1)))), "special"),
+                    Ck("WishartProbMinusExp", <<>>, <<x>>, NoV, NoV, NoM, Zero, "special") >>)
+               \o << Ck("WishartNotPD", <<>>, << I(0 - 1) >>, NoV, NoV, NoM, Zero, "exact"), Ck("WishartNotPD", <<>>, << Zero >>, NoV, NoV, NoM, Zero, "exact") >>
+WishartThm(wp) ==
+    LET L == wp[1] IN
+    Len(L) = 2 => \A M \in WMs : LET Xm == SigmaOf(M) IN
+                    /\ IsSym(Xm) /\ RLt(Zero, RSub(RMul(Xm[1][1], Xm[2][2]), RMul(Xm[1][2], Xm[2][1])))
+                    /\ RLt(Zero, TrInv(L, Xm))                                  \* trace of a product of two SPD matrices
+                    \* V^-1 V has trace d
+                    /\ TrInv(L, SigmaOf(L)) = I(2)
+
+(***************** PositivePartEigenSym and NormalRandCov over an eigendecomposition ******************)
+\* M = [[p, q], [q, p]] has the eigenvalues p - q and p + q with eigenvectors (1, -1) and (1, 1).  PositivePartEigenSym
+\* reports the eigenvalues in ascending order with the negative ones replaced by zero and otherwise the wrapped
+\* decomposition (At = the entries of M).  NormalRandCov panics on an EigenSym with a negative eigenvalue (documented) and
+\* accepts its positive part; a zero eigenvalue confines the draws to the hyperplane c . (x - mean) = 0, c its eigenvector.
+EigenPars == {<<p, q>> : p \in {2, 1, 0, 0 - 1}, q \in {1, 0 - 2, 3}} \cup {<<3, 1>>, <<5, 0 - 2>>}
+EigenChecks(pq) ==
+    LET p == pq[1]
+        q == pq[2]
+        lo == Min2(p - q, p + q)
+        hi == Max2(p - q, p + q)
+        M == << <<I(p), I(q)>>, <<I(q), I(p)>> >>
+        mean == <<I(3), I(0 - 1)>>
+        c == IF p - q <= p + q THEN <<One, I(0 - 1)>> ELSE <<One, One>>          \* eigenvector of the smaller eigenvalue
+    IN << Ck("EigenPosPart", <<>>, NoV, NoV, <<I(Max2(0, lo)), I(Max2(0, hi))>>, M, I(2), "special"),
+          \* r = 1: the raw decomposition must be refused, r = 2: a computed zero eigenvalue may have either sign, no verdict; x = c, y = mean, v = <<c . mean>> when the smaller eigenvalue is < 0 (it is replaced by an exact zero)
+          Ck("EigenRandCov", <<>>, c, mean, IF lo < 0 THEN <<Dot(c, mean)>> ELSE NoV, NoM, IF lo < 0 THEN One ELSE IF lo = 0 THEN I(2) ELSE Zero, "special") >>
+EigenThm(pq) ==
+    LET p == pq[1]
+        q == pq[2] IN
+    \* M (1, -1)^T = (p - q)(1, -1)^T and M (1, 1)^T = (p + q)(1, 1)^T
+    /\ p * 1 + q * (0 - 1) = (p - q) * 1 /\ q * 1 + p * (0 - 1) = (p - q) * (0 - 1)
+    /\ p + q = (p + q) * 1 /\ q + p = (p + q) * 1
+
+(************************ draws (rat-case format, area dist-rat) **************)
+\* N draws from a seeded source, projected on one coordinate: the marginal law of the coordinate is a univariate law of
+\* distuv (Normal: N(mu_i, Sigma_ii); Student's t: location mu_i, scale sqrt(Sigma_ii), nu; Dirichlet: Beta(alpha_i,
+\* alpha_0 - alpha_i); Uniform: uniform on the side of the box; Wishart: X_11 / V_11 is chi-squared(nu); a uniform unit vector
+\* in R^d: x_1^2 is Beta(1/2, (d-1)/2), for d = 3 x_1 is uniform on [-1, 1]).  The empirical distribution function of the
+\* coordinate is within Eps of that law's CDF at the printed cut points (Dvoretzky-Kiefer-Wolfowitz, exponent >= 32), every draw
+\* is finite / in the box / on the simplex / of unit length / a symmetric positive definite matrix.
+RN == IF Tier = 1 THEN 80000 ELSE 20000
+REps == IF Tier = 1 THEN R(3, 200) ELSE R(3, 100)
+RDKW == 2 * RN * REps[1] * REps[1] >= 32 * REps[2] * REps[2]
+Draws == <<"v", "draws">>
+SupportCk(id, name, lo, hi) == [id |-> id, e |-> <<"v", name>>, k |-> "support", v |-> V(Zero), tol |-> "exact", lo |-> lo, hi |-> hi, lat |-> 0]
+FreqCk(c, p) == [id |-> "Rand:freq", e |-> Draws, k |-> "freq", v |-> V(REps), tol |-> "exact", c |-> c, p |-> p]
+Sqrt(a) == <<"sqrt", a>>
+UnitN == <<V(Zero), V(One)>>
+Near1Lo == XE(I(1073741823), 0 - 30)                \* 1 - 2^-30
+Near1Hi == XE(I(1073741825), 0 - 30)                \* 1 + 2^-30
+RCase(t, fp, how, comp, matrix, checks) ==
+    [obj |-> [t |-> t, p |-> [i \in DOMAIN fp |-> V(fp[i])]],
+     steps |-> << [op |-> "samplemv", n |-> RN, salt |-> 1 + Salt, kind |-> how, comp |-> comp, matrix |-> matrix] >>,
+     checks |-> << SupportCk("Rand:finite", "finite", XI(1), XI(1)) >> \o checks]
+FlatI(M) == Flatten([i \in DOMAIN M |-> [j \in DOMAIN M |-> I(M[i][j])]])
+NormalHows == {"Rand", "Rand:dst", "NewNormalChol.Rand", "NormalRand", "NormalRandCov:Cholesky", "NormalRandCov:PivotedCholesky",
+               "NormalRandCov:EigenSym", "NormalRandCov:PositivePartEigenSym", "NormalRandCov:SymDense"}
+RandLs == { << <<1, 0>>, <<0, 1>> >>, << <<2, 0>>, <<0 - 1, 3>> >>, << <<1, 0, 0>>, <<2, 3, 0>>, <<0 - 1, 0, 2>> >> }
+NormalRand(L, how, i) ==
+    LET S == SigmaOf(L)
+        mu == MuOf(L)
+        n == Len(L)
+    IN RCase("distmv.Normal", <<I(n)>> \o [k \in 1 .. n |-> I(mu[k])] \o FlatI(IntMat(S)), how, i - 1, 0,
+             << Eq("Rand:dim", <<"v", "dim", 0>>, I(n), "exact") >>
+             \o [k \in 1 .. 7 |-> LET q == SeqOfQ[k] IN
+                   FreqCk(X(RAdd(I(mu[i]), q)), OM1("distuv.Normal", UnitN, "CDF", Div(X(q), Sqrt(X(S[i][i])))))])
+TRand(L, i) ==
+    LET S == SigmaOf(L)
+        mu == MuOf(L)
+        n == Len(L)
+        nu == NuOf(L)
+    IN RCase("distmv.StudentsT", <<I(n), I(nu)>> \o [k \in 1 .. n |-> I(mu[k])] \o FlatI(IntMat(S)), "Rand", i - 1, 0,
+             [k \in 1 .. 7 |-> LET q == SeqOfQ[k] IN
+                FreqCk(X(RAdd(I(mu[i]), q)), OM1("distuv.StudentsT", <<V(Zero), V(One), V(I(nu))>>, "CDF", Div(X(q), Sqrt(X(S[i][i])))))])
+UniformRand(b, i) ==
+    LET n == Len(b) IN
+    RCase("distmv.Uniform", Flatten([k \in 1 .. n |-> <<I(b[k][1]), I(b[k][2])>>]), "Rand", i - 1, 0,
+          << SupportCk("Rand:support", "draws", XI(b[i][1]), XI(b[i][2])) >>
+          \o [k \in 1 .. 3 |-> FreqCk(X(RAdd(I(b[i][1]), RMul(R(k, 4), I(b[i][2] - b[i][1])))), X(R(k, 4)))])
+UnitUniformRand(n, i) ==
+    RCase("distmv.UnitUniform", <<I(n)>>, "Rand", i - 1, 0,
+          << SupportCk("Rand:support", "draws", XI(0), XI(1)), Eq("Rand:dim", <<"v", "dim", 0>>, I(n), "exact") >>
+          \o [k \in 1 .. 3 |-> FreqCk(X(R(k, 4)), X(R(k, 4)))])
+RandAlphas == { <<One, One>>, <<I(2), I(3)>>, <<I(2), One, I(4)>>, <<R(1, 8), I(2), Half>>, <<I(5), One, One, I(2)>>, <<I((Salt % 4) + 1), I(2), I((Salt % 3) + 1)>> }
+DirichletRand(al, i) ==
+    RCase("distmv.Dirichlet", al, "Rand", i - 1, 0,
+          << SupportCk("Rand:support", "draws", XI(0), XI(1)),
+             SupportCk("Rand:on-the-simplex", "sum", Near1Lo, Near1Hi) >>
+          \o [k \in 1 .. 7 |-> FreqCk(X(R(k, 8)), OM1("distuv.Beta", <<V(al[i]), V(RSub(RSum(al), al[i]))>>, "CDF", X(R(k, 8))))])
+WishartRandPars == {<<L, nu>> : L \in {<< <<1, 0>>, <<0, 1>> >>, << <<2, 0>>, <<1, 1>> >>}, nu \in {I(3), I(5), R(5, 2)}}
+                   \cup {<< << <<2>> >>, I(1)>>, << << <<1>> >>, I(4)>>, << << <<1, 0, 0>>, <<2, 3, 0>>, <<0 - 1, 0, 2>> >>, I(4)>>}
+\* every diagonal entry X_ii / V_ii is chi-squared(nu) (the entries beyond the first involve the off-diagonal normal variates
+\* and the chi-squared variates with nu - i degrees of freedom of the Bartlett factor, and the factor of V)
+WishartRand(wp, how, i) ==
+    LET L == wp[1]
+        nu == wp[2]
+        d == Len(L)
+        vii == SigmaOf(L)[i][i]
+    IN RCase("distmat.Wishart", <<I(d), nu>> \o FlatI(IntMat(SigmaOf(L))), how, (i - 1) * d + (i - 1), d,
+             << SupportCk("Rand:symmetric-positive-definite", "spd", XI(1), XI(1)), Eq("Rand:dim", <<"v", "dim", 0>>, I(d * d), "exact"),
+                SupportCk("Rand:support", "draws", XI(0), XInf(1)) >>
+             \o [k \in 1 .. 4 |-> LET y == RMul(R(k, 2), nu) IN
+                   FreqCk(X(RMul(vii, y)), OM1("distuv.ChiSquared", <<V(nu)>>, "CDF", X(y)))])
+UnitVectorRand(d) ==
+    RCase("distmat.UnitVector", <<I(d)>>, "UnitVecTo", 0, 0,
+          << SupportCk("Rand:unit-length", "sumsq", Near1Lo, Near1Hi), SupportCk("Rand:support", "draws", XI(0 - 1), XI(1)),
+             Eq("Rand:dim", <<"v", "dim", 0>>, I(d), "exact"), FreqCk(XI(0), X(Half)) >>
+          \o (IF d = 1 THEN << FreqCk(X(R(0 - 1, 2)), X(Half)), FreqCk(X(Half), X(Half)) >>
+              ELSE IF d = 3 THEN [k \in 1 .. 3 |-> FreqCk(X(R(k - 2, 2)), X(R(k, 4)))]
+              ELSE Flatten([k \in 1 .. 3 |-> LET c == R(k, 4)
+                                                 b == OM1("distuv.Beta", <<V(Half), V(R(d - 1, 2))>>, "CDF", X(RSq(c))) IN
+                     << FreqCk(X(c), Add(X(Half), Mul(X(Half), b))), FreqCk(X(RNeg(c)), Sub(X(Half), Mul(X(Half), b))) >>])))
+ProposalRand(L, how, i) ==
+    LET S == SigmaOf(L)
+        y == [k \in 1 .. Len(L) |-> 2 * k - 3]
+        n == Len(L)
+    IN RCase("samplemv.ProposalNormal", <<I(n)>> \o [k \in 1 .. n |-> I(y[k])] \o FlatI(IntMat(S)), how, i - 1, 0,
+             [k \in 1 .. 7 |-> LET q == SeqOfQ[k] IN
+                FreqCk(X(RAdd(I(y[i]), q)), OM1("distuv.Normal", UnitN, "CDF", Div(X(q), Sqrt(X(S[i][i])))))])
+RandPars == {<<"normal", L, how, i>> : L \in RandLs, how \in NormalHows, i \in 1 .. 3}
+            \cup {<<"studentst", L, "Rand", i>> : L \in RandLs, i \in 1 .. 3}
+            \cup {<<"uniform", b, "Rand", i>> : b \in Boxes, i \in 1 .. 3}
+            \cup {<<"unituniform", n, "Rand", i>> : n \in 1 .. 3, i \in 1 .. 3}
+            \cup {<<"dirichlet", al, "Rand", i>> : al \in RandAlphas, i \in 1 .. 4}
+            \cup {<<"wishart", wp, how, i>> : wp \in WishartRandPars, how \in {"RandSymTo", "RandSymTo:dst", "RandCholTo"}, i \in 1 .. 3}
+            \cup {<<"unitvector", d, "UnitVecTo", 1>> : d \in 1 .. 5}
+            \cup {<<"proposal", L, how, i>> : L \in RandLs, how \in {"ConditionalRand", "ConditionalRand:dst"}, i \in 1 .. 3}
+SizeOf(q) == CASE q[1] \in {"normal", "studentst", "proposal", "uniform", "dirichlet"} -> Len(q[2]) [] q[1] = "unituniform" -> q[2] [] q[1] = "wishart" -> Len(q[2][1]) [] OTHER -> 1
+RandCase(q) == CASE q[1] = "normal" -> NormalRand(q[2], q[3], q[4]) [] q[1] = "studentst" -> TRand(q[2], q[4])
+                 [] q[1] = "uniform" -> UniformRand(q[2], q[4]) [] q[1] = "unituniform" -> UnitUniformRand(q[2], q[4])
+                 [] q[1] = "dirichlet" -> DirichletRand(q[2], q[4]) [] q[1] = "wishart" -> WishartRand(q[2], q[3], q[4])
+                 [] q[1] = "unitvector" -> UnitVectorRand(q[2]) [] q[1] = "proposal" -> ProposalRand(q[2], q[3], q[4])
+RandThm(q) == /\ RDKW
+              /\ 1073741823 + 1 = Pow(2, 30) /\ 1073741825 - 1 = Pow(2, 30)
+              /\ q[1] = "dirichlet" => \A i \in DOMAIN q[2] : RLt(Zero, q[2][i])
+
+(************** statistical distances (rat-case format, area dist-rat) ********)
+MvN(mu, S) == <<"normal", mu, IntMat(S)>>
+MvU(b) == <<"uniform", b>>
+MvD(al) == <<"dirichlet", al>>
+MvDist(t, f, l, r) == <<"mvdist", t, f, l, r>>
+Renyi(l, r, a) == <<"mvdist", "distmv.Renyi", "DistNormal", l, r, X(a)>>
+Mvm(o, f) == <<"mvm", o, f>>
+TrInvS(Lr, Sl) == TrInv(Lr, Sl)
+Det2(M) == RSub(RMul(M[1][1], M[2][2]), RMul(M[1][2], M[2][1]))
+DistLs == { << <<1, 0>>, <<0, 1>> >>, << <<2, 0>>, <<0 - 1, 3>> >>, << <<1, 0>>, <<2, 1>> >>, << <<2, 0>>, <<0, 2>> >> }
+DistMus == { <<0, 0>>, <<1, 0 - 2>>, <<3, 1>> }
+NormalDistCase(ml, Ll, mr, Lr) ==
+    LET Sl == SigmaOf(Ll)
+        Sr == SigmaOf(Lr)
+        d == Len(Ll)
+        l == MvN(ml, Sl)
+        r == MvN(mr, Sr)
+        dl == VSub(RVec(ml), RVec(mr))
+        mahR == Quad(RatM(Lr), dl)                                   \* (mu_l - mu_r)^T Sigma_r^-1 (mu_l - mu_r)
+        tr == TrInv(Lr, Sl)
+        Sm == MatScale(Half, [i \in 1 .. d |-> [j \in 1 .. d |-> RAdd(Sl[i][j], Sr[i][j])]])
+        quad == RMul(R(1, 8), Dot(dl, MatVec(Inv12(Sm), dl)))
+        kl == MvDist("distmv.KullbackLeibler", "DistNormal", l, r)
+        bh == MvDist("distmv.Bhattacharyya", "DistNormal", l, r)
+        he == MvDist("distmv.Hellinger", "DistNormal", l, r)
+        ce == MvDist("distmv.CrossEntropy", "DistNormal", l, r)
+        same == ml = mr /\ Ll = Lr
+    IN [obj |-> [t |-> "mathext", p |-> <<>>], steps |-> <<>>,
+        checks |->
+         << \* KL = 1/2 [log|Sr|/|Sl| + mah + tr(Sr^-1 Sl) - d]
+            Eq("distmv.KullbackLeibler.DistNormal:exp(2KL-rational)", Exp(Sub(Mul(XI(2), kl), X(RSub(RAdd(mahR, tr), I(d))))),
+               RSq(RDiv(DetL(Lr), DetL(Ll))), "special"),
+            \* D_B = quad + 1/2 log(|Sm| / sqrt(|Sl| |Sr|))
+            Eq("distmv.Bhattacharyya.DistNormal:exp(2(D-quad))", Exp(Mul(XI(2), Sub(bh, X(quad)))), RDiv(Det2(Sm), RMul(DetL(Ll), DetL(Lr))), "special"),
+            Eq("distmv.Bhattacharyya.DistNormal:symmetric", Sub(bh, MvDist("distmv.Bhattacharyya", "DistNormal", r, l)), Zero, "special"),
+            Eq("distmv.Hellinger.DistNormal:H^2+exp(-D_B)", Add(Sq(he), Exp(Neg(bh))), One, "special"),
+            \* cross entropy = KL + entropy of l; entropy + log density at the mean = d/2
+            Eq("distmv.CrossEntropy.DistNormal-KL-Entropy", Sub(Sub(ce, kl), Mvm(l, "Entropy")), Zero, "special"),
+            Eq("distmv.Normal.Entropy+LogProb(mean)", Add(Mvm(l, "Entropy"), Mvm(l, "LogProbAtMean")), R(d, 2), "special"),
+            \* Renyi: order 0 is 0, order 1 is KL (documented special forms)
+            Eq("distmv.Renyi(0).DistNormal", Renyi(l, r, Zero), Zero, "exact"),
+            Eq("distmv.Renyi(1).DistNormal-KL", Sub(Renyi(l, r, One), kl), Zero, "special"),
+            Panics("distmv.Renyi(-1).DistNormal", Renyi(l, r, I(0 - 1))) >>
+         \o (IF same THEN << Eq("distmv.KullbackLeibler.DistNormal(p,p)", Add(kl, XI(1)), One, "special"),
+                             Eq("distmv.Bhattacharyya.DistNormal(p,p)", Add(bh, XI(1)), One, "special"),
+                             Eq("distmv.Hellinger.DistNormal(p,p)^2", Add(Sq(he), XI(1)), One, "special") >>
+             ELSE << SignIs("distmv.KullbackLeibler.DistNormal>0", kl, 1), SignIs("distmv.Bhattacharyya.DistNormal>0", bh, 1) >>)
+         \* equal covariances: no logarithm.  KL = mah/2, D_B = mah/8, Renyi of order a = a mah / 2
+         \o (IF Ll = Lr THEN << Eq("distmv.KullbackLeibler.DistNormal:equal-covariance", Add(kl, XI(1)), RAdd(RMul(Half, mahR), One), "special"),
+                                Eq("distmv.Bhattacharyya.DistNormal:equal-covariance", Add(bh, XI(1)), RAdd(RMul(R(1, 8), mahR), One), "special") >>
+                              \o Checks({Half, R(1, 4), I(2), I(3)}, LAMBDA a :
+                                   << Eq("distmv.Renyi.DistNormal:equal-covariance", Add(Renyi(l, r, a), XI(1)), RAdd(RMul(RMul(a, Half), mahR), One), "special") >>)
+             ELSE Checks({Half, R(1, 4), R(3, 4)}, LAMBDA a : IF ml = mr THEN << SignIs("distmv.Renyi.DistNormal>0", Renyi(l, r, a), 1) >> ELSE <<>>))]
+\* Wasserstein between commuting covariances Sr = c^2 Sl: W^2 = |mu_l - mu_r|^2 + (1-c)^2 tr Sl.  The documentation gives the
+\* formula for d^2 and calls the result the distance: the value W^2 and its square root are both accepted.
+WassersteinCase(ml, Ll, mr, c) ==
+    LET Sl == SigmaOf(Ll)
+        Lr == [i \in DOMAIN Ll |-> [j \in DOMAIN Ll |-> c * Ll[i][j]]]
+        l == MvN(ml, Sl)
+        r == MvN(mr, SigmaOf(Lr))
+        dl == VSub(RVec(ml), RVec(mr))
+        w2 == RAdd(Dot(dl, dl), RMul(I((1 - c) * (1 - c)), RSum([i \in DOMAIN Sl |-> Sl[i][i]])))
+        w == MvDist("distmv.Wasserstein", "DistNormal", l, r)
+    IN [obj |-> [t |-> "mathext", p |-> <<>>], steps |-> <<>>, checks |-> <<>>,
+        alts |-> << << Eq("distmv.Wasserstein.DistNormal", Add(w, XI(1)), RAdd(w2, One), "special") >>,
+                    << Eq("distmv.Wasserstein.DistNormal", Add(Sq(w), XI(1)), RAdd(w2, One), "special") >> >>]
+BoxVol(b) == RProd([i \in DOMAIN b |-> I(b[i][2] - b[i][1])])
+DistBoxes == { << <<0, 4>>, <<0, 4>> >>, << <<1, 3>>, <<0, 2>> >>, << <<0 - 1, 1>>, <<1, 5>> >>, << <<4, 6>>, <<0, 4>> >>, << <<5, 6>>, <<5, 6>> >>, << <<1, 2>>, <<1, 2>> >> }
+Inside(l, r) == \A i \in DOMAIN l : r[i][1] <= l[i][1] /\ l[i][2] <= r[i][2]
+OverlapLen(l, r, i) == Min2(l[i][2], r[i][2]) - Max2(l[i][1], r[i][1])
+UniformDistCase(l, r) ==
+    LET kl == MvDist("distmv.KullbackLeibler", "DistUniform", MvU(l), MvU(r))
+        bh == MvDist("distmv.Bhattacharyya", "DistUniform", MvU(l), MvU(r))
+        ov == \A i \in DOMAIN l : OverlapLen(l, r, i) > 0
+    IN [obj |-> [t |-> "mathext", p |-> <<>>], steps |-> <<>>,
+        checks |->
+          (IF Inside(l, r) THEN << Eq("distmv.KullbackLeibler.DistUniform:exp(KL)", Exp(kl), RDiv(BoxVol(r), BoxVol(l)), "special") >>
+           ELSE << PInf("distmv.KullbackLeibler.DistUniform:not-contained", kl) >>)
+          \o (IF ov THEN << Eq("distmv.Bhattacharyya.DistUniform:exp(-2D)", Exp(Mul(XI(0 - 2), bh)),
+                               RDiv(RSq(RProd([i \in DOMAIN l |-> I(OverlapLen(l, r, i))])), RMul(BoxVol(l), BoxVol(r))), "special"),
+                            Eq("distmv.Bhattacharyya.DistUniform:symmetric", Sub(bh, MvDist("distmv.Bhattacharyya", "DistUniform", MvU(r), MvU(l))), Zero, "special") >>
+              ELSE << PInf("distmv.Bhattacharyya.DistUniform:disjoint", bh) >>)]
+DistAlphas == { <<1, 1>>, <<2, 3>>, <<4, 1>>, <<3, 3>> } \cup { <<1, 1, 1>>, <<2, 1, 4>>, <<3, 3, 2>> }
+DirichletDistCase(l, r) ==
+    LET kl == MvDist("distmv.KullbackLeibler", "DistDirichlet", MvD(l), MvD(r))
+        a0 == ISum(l)
+        ct == RSum([i \in DOMAIN l |-> RMul(I(l[i] - r[i]), RSub(Harm(l[i] - 1), Harm(a0 - 1)))])
+    IN [obj |-> [t |-> "mathext", p |-> <<>>], steps |-> <<>>,
+        checks |-> << Eq("distmv.KullbackLeibler.DistDirichlet:exp(KL-ct)", Exp(Sub(kl, X(ct))), RDiv(DirCoef(l), DirCoef(r)), "coarse") >>
+                   \o (IF l = r THEN << Eq("distmv.KullbackLeibler.DistDirichlet(p,p)", Add(kl, XI(1)), One, "special") >>
+                       ELSE << SignIs("distmv.KullbackLeibler.DistDirichlet>0", kl, 1) >>)]
+DimMismatchCase ==
+    LET l == MvN(<<0, 0>>, SigmaOf(<< <<1, 0>>, <<0, 1>> >>))
+        r == MvN(<<0, 0, 0>>, SigmaOf(<< <<1, 0, 0>>, <<0, 1, 0>>, <<0, 0, 1>> >>))
+    IN [obj |-> [t |-> "mathext", p |-> <<>>], steps |-> <<>>,
+        checks |-> << Panics("distmv.KullbackLeibler.DistNormal:dimension-mismatch", MvDist("distmv.KullbackLeibler", "DistNormal", l, r)),
+                      Panics("distmv.Bhattacharyya.DistNormal:dimension-mismatch", MvDist("distmv.Bhattacharyya", "DistNormal", l, r)),
+                      Panics("distmv.Hellinger.DistNormal:dimension-mismatch", MvDist("distmv.Hellinger", "DistNormal", l, r)),
+                      Panics("distmv.CrossEntropy.DistNormal:dimension-mismatch", MvDist("distmv.CrossEntropy", "DistNormal", l, r)),
+                      Panics("distmv.Wasserstein.DistNormal:dimension-mismatch", MvDist("distmv.Wasserstein", "DistNormal", l, r)),
+                      Panics("distmv.Renyi.DistNormal:dimension-mismatch", Renyi(l, r, Half)),
+                      Panics("distmv.KullbackLeibler.DistUniform:dimension-mismatch",
+                             MvDist("distmv.KullbackLeibler", "DistUniform", MvU(<< <<0, 1>> >>), MvU(<< <<0, 1>>, <<0, 1>> >>))),
+                      Panics("distmv.Bhattacharyya.DistUniform:dimension-mismatch",
+                             MvDist("distmv.Bhattacharyya", "DistUniform", MvU(<< <<0, 1>> >>), MvU(<< <<0, 1>>, <<0, 1>> >>))),
+                      Panics("distmv.KullbackLeibler.DistDirichlet:dimension-mismatch",
+                             MvDist("distmv.KullbackLeibler", "DistDirichlet", MvD(<<1, 1>>), MvD(<<1, 1, 1>>))) >>]
+DistancePars == {<<"normal", ml, Ll, mr, Lr>> : ml \in DistMus, Ll \in DistLs, mr \in {<<0, 0>>, <<3, 1>>}, Lr \in DistLs}
+                \cup {<<"wasserstein", ml, Ll, mr, c>> : ml \in DistMus, Ll \in DistLs, mr \in {<<0, 0>>, <<3, 1>>}, c \in {1, 2, 3}}
+                \cup {<<"uniform", l, r>> : l \in DistBoxes, r \in DistBoxes}
+                \cup {<<"dirichlet", l, r>> : l \in DistAlphas, r \in DistAlphas}
+                \cup {<<"mismatch">>}
+DistanceOK(q) == q[1] = "dirichlet" => Len(q[2]) = Len(q[3])
+DistanceCase(q) == CASE q[1] = "normal" -> NormalDistCase(q[2], q[3], q[4], q[5]) [] q[1] = "wasserstein" -> WassersteinCase(q[2], q[3], q[4], q[5])
+                     [] q[1] = "uniform" -> UniformDistCase(q[2], q[3]) [] q[1] = "dirichlet" -> DirichletDistCase(q[2], q[3])
+                     [] q[1] = "mismatch" -> DimMismatchCase
+DistanceThm(q) ==
+    CASE q[1] = "normal" -> LET Sl == SigmaOf(q[3])
+                                Sr == SigmaOf(q[5])
+                                Sm == MatScale(Half, [i \in 1 .. 2 |-> [j \in 1 .. 2 |-> RAdd(Sl[i][j], Sr[i][j])]])
+                            IN /\ RLt(Zero, Det2(Sm)) /\ RLt(Zero, TrInv(q[5], Sl))
+                               /\ Det2(Sl) = RSq(DetL(q[3]))
+                               \* tr(S^-1 S) = d, and by the AM-GM inequality |Sm|^2 >= |Sl| |Sr| (the Bhattacharyya distance is >= 0)
+                               /\ TrInv(q[3], Sl) = I(2)
+                               /\ RLeq(RMul(Det2(Sl), Det2(Sr)), RSq(Det2(Sm)))
+      [] q[1] = "uniform" -> Inside(q[2], q[3]) => RLeq(BoxVol(q[2]), BoxVol(q[3]))
+      [] OTHER -> TRUE
+
 (****************************** the case space *******************************)
-Pars == CASE Kind = "normal" -> Ls [] Kind = "studentst" -> Ls [] Kind = "uniform" -> Boxes [] Kind = "dirichlet" -> Alphas
-Thm(p) == CASE Kind = "normal" -> NormalThm(p) [] Kind = "studentst" -> NormalThm(p) [] Kind = "dirichlet" -> DirichletThm(p) [] OTHER -> TRUE
+Pars == CASE Kind = "normal" -> Ls [] Kind = "normal-chol" -> Ls [] Kind = "normal-prec" -> {L \in Ls \cup L3s : UnitDiag(L)}
+          [] Kind = "studentst" -> Ls [] Kind = "uniform" -> Boxes [] Kind = "dirichlet" -> Alphas
+          [] Kind = "wishart" -> WishartPars [] Kind = "eigen" -> EigenPars [] Kind = "rand" -> {q \in RandPars : q[4] <= SizeOf(q)}
+          [] Kind = "distance" -> {q \in DistancePars : DistanceOK(q)}
+Thm(p) == CASE Kind = "normal" -> NormalThm(p) [] Kind = "normal-chol" -> NormalThm(p) [] Kind = "normal-prec" -> NormalThm(p) /\ PrecThm(p) [] Kind = "studentst" -> NormalThm(p) [] Kind = "dirichlet" -> DirichletThm(p)
+            [] Kind = "wishart" -> WishartThm(p) [] Kind = "eigen" -> EigenThm(p) [] Kind = "rand" -> RandThm(p) [] Kind = "distance" -> DistanceThm(p) [] OTHER -> TRUE
+IntM(M) == [i \in DOMAIN M |-> [j \in DOMAIN M |-> M[i][j][1]]]
 Case(p) == CASE Kind = "normal" -> [kind |-> Kind, mu |-> MuOf(p), sigma |-> [i \in DOMAIN p |-> [j \in DOMAIN p |-> SigmaOf(p)[i][j][1]]], nu |-> 0, box |-> <<>>,
                                     checks |-> NormalChecks(p)]
+          [] Kind = "normal-chol" -> [kind |-> "normal", ctor |-> "chol", mu |-> MuOf(p), sigma |-> IntM(SigmaOf(p)), nu |-> 0, box |-> <<>>,
+                                      checks |-> NormalChecks(p)]
+          [] Kind = "normal-prec" -> [kind |-> "normal", ctor |-> "prec", mu |-> MuOf(p), sigma |-> IntM(SigmaOf(p)), prec |-> IntM(PrecOf(p)), nu |-> 0, box |-> <<>>,
+                                      checks |-> Retol(NormalChecks(p))]
           [] Kind = "studentst" -> [kind |-> Kind, mu |-> MuOf(p), sigma |-> [i \in DOMAIN p |-> [j \in DOMAIN p |-> SigmaOf(p)[i][j][1]]], nu |-> NuOf(p), box |-> <<>>,
                                     checks |-> TChecks(p)]
           [] Kind = "uniform" -> [kind |-> Kind, mu |-> <<>>, sigma |-> <<>>, nu |-> 0, box |-> p, checks |-> UniformChecks(p)]
           [] Kind = "dirichlet" -> [kind |-> Kind, mu |-> p, sigma |-> <<>>, nu |-> 0, box |-> <<>>, checks |-> DirichletChecks(p)]
+          [] Kind = "wishart" -> [kind |-> Kind, mu |-> <<>>, sigma |-> IntMat(SigmaOf(p[1])), nu |-> p[2], box |-> <<>>, checks |-> WishartChecks(p)]
+          [] Kind = "eigen" -> [kind |-> Kind, mu |-> <<3, 0 - 1>>, sigma |-> << <<p[1], p[2]>>, <<p[2], p[1]>> >>, nu |-> 0, box |-> <<>>, checks |-> EigenChecks(p)]
+          [] Kind = "rand" -> RandCase(p)
+          [] Kind = "distance" -> DistanceCase(p)
 
 Init == par \in Pars
 Next == UNCHANGED par
